@@ -129,7 +129,8 @@ fn subsets(raw: &RawKey, env: &Env, model: &BTreeMap<String, LTree>, rep: &mut R
         rep.note(format!("state with {} index files: only subsets of the first {max_files} are removed", ids.len()));
     }
     let k = ids.len().min(max_files);
-    for mask in 1..(1u32 << k) {
+    // mask 0 (nothing removed) is explored with read_all only: every pack header is re-read
+    for (mask, read_all_opt) in (0..(1u32 << k)).flat_map(|m| [(m, false), (m, true)]).filter(|(m, ra)| *m != 0 || *ra) {
         let mut st = base.clone();
         for (i, id) in ids.iter().take(k).enumerate() {
             if mask & (1 << i) != 0 {
@@ -140,9 +141,12 @@ fn subsets(raw: &RawKey, env: &Env, model: &BTreeMap<String, LTree>, rep: &mut R
         rep.inc("index_subsets_removed");
         let e2 = env.fork(st);
         let repo = e2.open().map_err(|e| ("C08/repair-index/open".to_string(), e.display_log()))?;
-        repo.repair_index(&RepairIndexOptions::default(), false)
+        if read_all_opt {
+            rep.inc("repair_index_read_all");
+        }
+        repo.repair_index(&RepairIndexOptions::default().read_all(read_all_opt), false)
             .map_err(|e| ("C08/repair-index/error".to_string(), format!("subset {mask:b}: {}", e.display_log())))?;
-        compare(&e2, model, "repair-index").map_err(|(s, m)| (s, format!("after removing index subset {mask:b} of {k} and repair-index: {m}")))?;
+        compare(&e2, model, "repair-index").map_err(|(s, m)| (s, format!("after removing index subset {mask:b} of {k} and repair-index (read_all={read_all_opt}): {m}")))?;
         verify_packs(raw, &e2.store(), rep).map_err(|(s, m)| (format!("{s}[after-repair-index]"), m))?;
         let errs = check_errors(&e2, false).map_err(|e| ("C08/repair-index/check".to_string(), e))?;
         if !errs.is_empty() {
@@ -276,7 +280,7 @@ fn grid(quick: bool) -> Vec<Cfg> {
 
 pub fn run(args: &Args, rep: &mut Report) {
     let raw = RawKey::from_master(&master_key());
-    rep.set_meta("rule", json!("configuration grid {v1, v2 default compression, v2 uncompressed, v2 level 19} x pack sizes {one blob, 300 B, 4 MiB} x chunker {tiny rabin, default}; per configuration one history exercising every pack writer (backup, prune repack re-encoding / fast / repack-uncompressed, merge, rewrite, copy into a repository with another key and configuration, repair snapshots); after every step every pack in the store is decoded independently; at three points every subset of the index files is removed before repair-index. evaluations = packs verified + index subsets; non-trivial = distinct (configuration, step) pairs with >= 2 packs"));
+    rep.set_meta("rule", json!("configuration grid {v1, v2 default compression, v2 uncompressed, v2 level 19} x pack sizes {one blob, 300 B, 4 MiB} x chunker {tiny rabin, default}; per configuration one history exercising every pack writer (backup, prune repack re-encoding / fast / repack-uncompressed, merge, rewrite, copy into a repository with another key and configuration, repair snapshots); after every step every pack in the store is decoded independently; at three points every subset of the index files (incl. none, with read-all) is removed before repair-index, run with and without read-all. evaluations = packs verified + index subsets; non-trivial = distinct (configuration, step) pairs with >= 2 packs"));
     if let Some(p) = &args.replay {
         let v: Value = serde_json::from_str(&std::fs::read_to_string(p).unwrap()).unwrap();
         let cfg = Cfg::from_json(&v["case"]["config"]);
